@@ -270,3 +270,101 @@ func TestC03_StackResident(t *testing.T) {
 		return c
 	}, checkStackPlacement)
 }
+
+// ---- strings of almost 2 GiB that are really there (C02; also what C03 says about lengths) ------------------------------------------
+
+// HugeStrCase: a string of N bytes (N up to 2^31-1, the largest size the format can declare) that is really
+// present - in the 4 GiB no-reserve mapping, of which only the pages holding the length prefix and the byte
+// behind the string are touched - is skipped as a value, as a struct field and as an unknown field of the
+// shipped structs. Nothing copies the string.
+type HugeStrCase struct {
+	N int64 `json:"n"`
+}
+
+func checkHugeStr(c HugeStrCase, cv *cov) (v *evid.Violation) {
+	if c.N < 1<<20 || c.N > 1<<31-1 {
+		return nil
+	}
+	m := hugeMapping()
+	if m == nil {
+		cv.label("huge mapping unavailable")
+		return nil
+	}
+	n := int(c.N)
+	body := func() {
+		// [0b 00 09][len][n bytes][00][trailer]
+		buf := m[:3+4+n+1+5]
+		saved := [8]byte{}
+		copy(saved[:], buf[:7])
+		defer func() {
+			copy(buf[:7], saved[:7])
+			buf[7+n] = 0
+		}()
+		buf[0], buf[1], buf[2] = 0x0b, 0, 9
+		buf[3], buf[4], buf[5], buf[6] = byte(n>>24), byte(n>>16), byte(n>>8), byte(n)
+		buf[7+n] = 0
+		str := buf[3 : 7+n+3] // the string value followed by 3 more bytes
+		if got, err := thrift.Binary.Skip(str, thrift.STRING); err != nil || got != 4+n {
+			v = evid.Failf("Binary.Skip(STRING) on a string of %d bytes that is present (followed by 3 more bytes) returned (%d, %v), want (%d, nil)", n, got, err, 4+n)
+			return
+		}
+		d := thrift.NewBytesSkipDecoder(str)
+		out, err := d.Next(thrift.STRING)
+		d.Release()
+		if err != nil || len(out) != 4+n {
+			v = evid.Failf("BytesSkipDecoder.Next(STRING) on a string of %d bytes returned (%d bytes, %v), want %d bytes", n, len(out), err, 4+n)
+			return
+		}
+		st := buf[:3+4+n+1+5]
+		if got, err := thrift.Binary.Skip(st, thrift.STRUCT); err != nil || got != 3+4+n+1 {
+			v = evid.Failf("Binary.Skip(STRUCT) on a struct whose only field is a string of %d bytes returned (%d, %v), want (%d, nil)", n, got, err, 3+4+n+1)
+			return
+		}
+		var ae thrift.ApplicationException
+		if got, err := ae.FastRead(st); err != nil || got != 3+4+n+1 {
+			v = evid.Failf("ApplicationException.FastRead on a struct whose only (unknown) field is a string of %d bytes returned (%d, %v), want (%d, nil)", n, got, err, 3+4+n+1)
+			return
+		}
+		var bs base.Base
+		if got, err := bs.FastRead(st); err != nil || got != 3+4+n+1 {
+			v = evid.Failf("Base.FastRead on a struct whose only (unknown) field is a string of %d bytes returned (%d, %v), want (%d, nil)", n, got, err, 3+4+n+1)
+			return
+		}
+	}
+	if p, st := safeFault(body); p != nil {
+		return &evid.Violation{Msg: fmt.Sprintf("panic on a present string of %d bytes: %v", n, p), Stack: st}
+	}
+	cv.nontrivial = true
+	return v
+}
+
+func init() { register("c02_huge_string", checkHugeStr) }
+
+// (registered under C02: the C03 process runs under an address-space limit that does not admit the mapping)
+func TestC02_HugeString(t *testing.T) {
+	rec := evid.New("C02", "c02_huge_string", "enumeration: strings of N in {2^24+1, 2^30, 2^31-9 .. 2^31-1} bytes that are really present (4 GiB no-reserve mapping; only the pages with the length prefix and the byte behind the string are touched) skipped by Binary.Skip as a value (followed by more bytes), as the only field of a struct, by BytesSkipDecoder, and as an unknown field by ApplicationException.FastRead and Base.FastRead: the exact length, no panic, no access outside the slice; every N is one evaluation")
+	defer rec.Flush()
+	if hugeMapping() == nil {
+		rec.Assume("the 4 GiB no-reserve mapping could not be created in this environment; the check did not run")
+		return
+	}
+	b := evid.NewBatch()
+	ns := []int64{1<<24 + 1, 1 << 30}
+	for d := int64(9); d >= 1; d-- {
+		ns = append(ns, 1<<31-d)
+	}
+	for _, n := range ns {
+		c := HugeStrCase{N: n}
+		var cv cov
+		v := checkHugeStr(c, &cv)
+		b.Evals++
+		b.Distinct++
+		b.Nontrivial++
+		if v != nil {
+			failEnum(t, rec, "c02_huge_string", c, v)
+			break
+		}
+	}
+	rec.Merge(b)
+	rec.SetExhaustive()
+}
